@@ -575,7 +575,44 @@ def r09_12(ctx):
     ctx.floor('R09.12', 'geometry-free fallbacks of the fast assemblers', n, 2)
 
 
+
+def r09_13(ctx):
+    """inner_products and integrate both "leave vector components intact": the value array has the grid axes first and the component axes
+    last, |det J| has the grid axes only.  Before `fvals *= geo_det` the determinant array is given trailing unit axes up to fvals.ndim.
+    If one sibling does this and the other multiplies directly, numpy aligns the determinant with the LAST axes of the other one: a
+    broadcasting error on most grids, a silently wrong integral when the node count happens to equal the component count
+    (contradiction rule: the two clones of one computation disagree)."""
+    sites = []
+    for name in ('inner_products', 'integrate'):
+        f = ctx.prog.maybe_func(A + '.' + name)
+        if f is None:
+            continue
+        muls = [s for s in ast.walk(f.node) if isinstance(s, ast.AugAssign) and isinstance(s.op, ast.Mult) and isinstance(s.value, ast.Name)
+                and 'det' in s.value.id]
+        for m in muls:
+            det = m.value.id
+            blk = parent(m)
+            body = getattr(blk, 'body', [])
+            before = [s for s in ast.walk(blk) if hasattr(s, 'lineno') and s.lineno < m.lineno]
+            padded = any((isinstance(s, ast.Assign) and any(det in src(t) for t in s.targets) and ('ndim' in src(s) or 'extra' in src(s) or 'newaxis' in src(s) or 'None' in src(s.value) or 'expand_dims' in src(s) or 'reshape' in src(s)))
+                         for s in before)
+            sites.append((f, m, padded))
+    ctx.floor('R09.13', 'sites multiplying values by |det J|', len(sites), 2)
+    anyp = any(p_ for _f, _m, p_ in sites)
+    for f, m, p_ in sites:
+        if p_:
+            ctx.met('R09.13', f.qual, src(m), m, 'determinant padded with trailing unit axes for the component axes of the values')
+        elif anyp:
+            ctx.violated('R09.13', f.qual, src(m), m,
+                         'the sibling routine appends unit axes to |det J| for vector-valued data, this one multiplies the (grid-shaped) determinant onto '
+                         'values of shape grid + (k,) directly: integrate(kvs, f_vec, geo=geo) raises or -- degree 1, one span, two components -- returns '
+                         '[1.711, 1.228] instead of [2, 13/12]')
+        else:
+            ctx.undecided('R09.13', f.qual, src(m), m, 'no sibling pads the determinant: nothing to compare with')
+
+
 def run(ctx):
+    r09_13(ctx)
     r09_12(ctx)
     r09_10(ctx)
     r09_1(ctx)
